@@ -46,7 +46,10 @@ CONFIG = dict(
          "resumed, or by the owner itself (no callback may run inside Stop / on the caller's goroutine; how many queued objects the exiting "
          "loop still takes is left open, q=?). Stale cancels (already fired one-shot, 0, never issued id, twice) are followed by new "
          "one-shots, a continuing repeating timer and a real cancel; a real-time watchdog outside the bubble turns an op that never returns "
-         "(goroutines stuck on a mutex are not durably blocked) into the observation `blocked in=cancel|expiry`. Run `svc`: a real actorex/service.Service "
+         "(goroutines stuck on a mutex are not durably blocked) into the observation `blocked in=cancel|expiry`. A quarter of the cases count in microseconds (durations 1, 500, 900, 999 us next to 0 and >= 1 ms; steps of "
+         "less than the duration must fire nothing). Half of the run-service cases have a twin StandardRunService created with the same (or the "
+         "empty) name, busy with a timer of its own; ops then reach the owner loop through a selector of the harness' own, and every callback must "
+         "run on ITS service's loop goroutine. Run `svc`: a real actorex/service.Service "
          "(actor + ScheDisp run service) issues requests to a recording peer, gets them answered or lets them time out, idles across several virtual "
          "seconds and gets busy again; observed per step: callback log of every timer object of the service's manager, ids held in Mgr.timers, "
          "Service.timerCheckExpired, request-table size (spec: a check timer the service gave up never fires again and is gone from the manager; "
